@@ -104,3 +104,26 @@ def discover_programs():
                 continue
             progs["%s.%s" % (mi.name, name)] = v
     return progs
+
+
+# the 35 entry points the property counts (C13 / C14), by module and name
+EXPECTED = ['autocorr.autocorr', 'autocorr.autocorr_1d', 'autocorr.autocorr_1d_float', 'autocorr.autocorr_1d_int', 'autocorr.autocorr_tyx', 'lroo.lroo', 'stats._mann_kendall_trend_gu', 'stats._mann_kendall_trend_gu_nd', 'stats.brentq', 'stats.gammafit', 'stats.gammastd', 'stats.gammastd_grp', 'stats.gammastd_yxt', 'stats.mann_kendall_trend_1d', 'stats.mann_kendall_trend_yxt', 'stats.mean_grp', 'stats.mk_p_value', 'stats.mk_score', 'stats.mk_sens_slope', 'stats.mk_variance_s', 'stats.mk_z_score', 'stats.rolling_sum', 'tinterpolate.tinterpolate', 'ws2d.ws2d', 'ws2dgu.ws2dgu', 'ws2doptv.ws2doptv', 'ws2doptvp._ws2doptvp', 'ws2doptvp.ws2doptvp', 'ws2doptvplc.ws2doptvplc', 'ws2doptvplc.ws2doptvplc_tyx', 'ws2dpgu.ws2dpgu', 'ws2dwcv.ws2dwcv', 'ws2dwcvp._ws2dwcvp', 'ws2dwcvp.ws2dwcvp', 'zonal.do_mean']
+
+
+def entry_points():
+    """discover_programs() plus every expected entry point that still exists as a callable of its module although it is no longer a
+    Numba dispatcher itself (e.g. refactored into a Python wrapper around compiled helpers): what the library calls is what is checked."""
+    import importlib
+
+    progs = discover_programs()
+    for q in EXPECTED:
+        if q in progs:
+            continue
+        m, f = q.split(".")
+        try:
+            v = getattr(importlib.import_module("hdc.algo.ops." + m), f)
+        except (ImportError, AttributeError):
+            continue
+        if callable(v):
+            progs[q] = v
+    return progs
